@@ -431,6 +431,34 @@ Truncate(f, n) == "Truncate" \in Ops /\ LET P(t, p) == P_truncate(t, p, n) IN Ws
 Chmod(f, perm) == "Chmod" \in Ops /\ LET P(t, p) == P_chmod(t, p, perm) IN WstatOp(f, <<"Chmod", f, perm>>, P)
 Mtime(f, m) == "Mtime" \in Ops /\ LET P(t, p) == P_utimes(t, p, m) IN WstatOp(f, <<"Mtime", f, m>>, P)
 
+(* One Twstat that sets several fields at once.  ufs.go applies them in the order chmod, (chown,)
+   rename, truncate, times, each to the path the fid designates at that point; the first failing
+   call ends the request with Rerror, what was done before stays done, and the fid has followed a
+   rename that succeeded.  "Don't touch": nn = "", n = -1, perm = -1, m = 0.  q = <<>>: no rename. *)
+WstatSeq(t0, p0, q, n, perm, m) ==
+  LET r1 == IF perm >= 0 THEN P_chmod(t0, p0, perm) ELSE R(t0, 0)
+      r2 == IF r1.e = 0 /\ q # <<>> THEN P_rename(r1.t, p0, q) ELSE r1
+      p2 == IF r1.e = 0 /\ q # <<>> /\ r2.e = 0 THEN q ELSE p0
+      r3 == IF r2.e = 0 /\ n >= 0 THEN P_truncate(r2.t, p2, n) ELSE r2
+      r4 == IF r3.e = 0 /\ m > 0 THEN P_utimes(r3.t, p2, m) ELSE r3
+  IN [t |-> r4.t, e |-> r4.e, path |-> p2]
+
+NFields(nn, n, perm, m) == (IF nn # "" THEN 1 ELSE 0) + (IF n >= 0 THEN 1 ELSE 0) + (IF perm >= 0 THEN 1 ELSE 0) + (IF m > 0 THEN 1 ELSE 0)
+
+Wstat(f, nn, n, perm, m) ==
+  /\ "Wstat" \in Ops /\ fid[f].used
+  /\ NFields(nn, n, perm, m) >= 2          \* single fields are Rename, Truncate, Chmod, Mtime
+  /\ nn # "" => ~Dotted(fid[f].path) /\ Clean(fid[f].path) # RootPath /\ NoLinkPrefix(fid[f].path)
+  /\ IF NFields("", n, perm, m) > 0 THEN NotLink(fid[f]) ELSE TRUE
+  /\ LET op == <<"Wstat", f, nn, n, perm, m>>
+         F == fid[f]
+         q == IF nn = "" THEN <<>> ELSE RenameDest(F, nn)
+         r == WstatSeq(tree, F.path, q, n, perm, m)
+     IN IF Lstat(tree, F.path) < 0 THEN /\ obs' = Err(op, 0) /\ UNCHANGED <<tree, fid>>
+        ELSE /\ tree' = r.t
+             /\ fid' = DetachOpen([fid EXCEPT ![f].path = r.path], r.t)
+             /\ obs' = IF r.e # 0 THEN Err(op, 0) ELSE Ok(op, <<>>, NoStat)
+
 Write(f, off, n) ==
   /\ "Write" \in Ops /\ fid[f].used /\ fid[f].open >= 0 /\ Acc(fid[f].open) \in {1, 2} /\ fid[f].open % 16 # 3
   /\ off + n <= MaxLen
@@ -460,6 +488,8 @@ Next ==
   \/ \E f \in Fids, n \in Lens : Truncate(f, n)
   \/ \E f \in Fids, perm \in Perms : Chmod(f, perm)
   \/ \E f \in Fids, m \in Mtimes : Mtime(f, m)
+  \/ \E f \in Fids, nn \in RenameNames \cup {""}, n \in Lens \cup {0 - 1}, perm \in Perms \cup {0 - 1}, m \in Mtimes \cup {0} :
+        Wstat(f, nn, n, perm, m)
   \/ \E f \in Fids, off \in Lens, n \in 1..2 : Write(f, off, n)
   \/ \E f \in Fids : Clunk(f)
 
@@ -531,18 +561,31 @@ PosixOf(o) ==
     [] OpIs(o, "Open") -> P_open(tree, F.path, Acc(o.op[3]), Trunc(o.op[3]), FALSE, 0)
     [] OTHER -> R(tree, 0)
 
-Mutating == {"Create", "Remove", "Rename", "Truncate", "Chmod", "Mtime", "Open", "Write"}
+Mutating == {"Create", "Remove", "Rename", "Truncate", "Chmod", "Mtime", "Open", "Write", "Wstat"}
 MutationsMirrorA ==
   LET o == obs' IN
     /\ o.op[1] \notin Mutating => tree' = tree
-    /\ (o.op[1] \in Mutating \ {"Write"} /\ o.res = "ok" /\ (OpIs(o, "Create") => Plain(o.op[3]))) =>
+    /\ (o.op[1] \in Mutating \ {"Write", "Wstat"} /\ o.res = "ok" /\ (OpIs(o, "Create") => Plain(o.op[3]))) =>
           LET r == PosixOf(o)
           IN /\ r.e = 0
              /\ IF OpIs(o, "Create") /\ o.op[4] # "F"
                 THEN \* then the new object is opened with the requested mode (no further change for OREAD)
                      tree' = r.t
                 ELSE tree' = r.t
-    /\ (o.op[1] \in Mutating \ {"Write"} /\ o.res = "err") => tree' = tree
+    /\ (o.op[1] \in Mutating \ {"Write", "Wstat"} /\ o.res = "err") => tree' = tree
+    /\ OpIs(o, "Wstat") =>            \* several fields: each requested change made, in ufs.go's order
+          LET F == fid[o.op[2]]  nn == o.op[3]  n == o.op[4]  perm == o.op[5]  m == o.op[6]
+              i == Lstat(tree, F.path)
+              q == IF nn = "" THEN <<>> ELSE RenameDest(F, nn)
+          IN IF i < 0 THEN o.res = "err" /\ tree' = tree
+             ELSE /\ tree' = WstatSeq(tree, F.path, q, n, perm, m).t
+                  /\ o.res = "ok" =>
+                        /\ Lstat(tree', IF nn = "" THEN F.path ELSE q) = i
+                        /\ perm >= 0 => tree'.node[i].perm = perm
+                        /\ n >= 0 => Len(tree'.node[i].data) = n
+                        /\ m > 0 => tree'.node[i].mt = m
+                        /\ (perm < 0 => tree'.node[i].perm = tree.node[i].perm)
+                        /\ (n < 0 => tree'.node[i].data = tree.node[i].data)
 MutationsMirror == [][MutationsMirrorA]_vars
 
 FailedCreateRemoveChangesNothingA ==
@@ -560,6 +603,9 @@ FidFollowsA ==
           /\ Plain(o.op[3]) => fid'[o.op[2]].path = fid[o.op[2]].path \o <<o.op[3]>>
           /\ Lstat(tree, fid'[o.op[2]].path) < 0 \/ o.op[4] = "F"        \* it is the created object
     /\ (OpIs(o, "Rename") /\ o.res = "ok") =>
+          /\ Lstat(tree', fid'[o.op[2]].path) = Lstat(tree, fid[o.op[2]].path)
+          /\ fid'[o.op[2]].path = RenameDest(fid[o.op[2]], o.op[3])
+    /\ (OpIs(o, "Wstat") /\ o.op[3] # "" /\ o.res = "ok") =>
           /\ Lstat(tree', fid'[o.op[2]].path) = Lstat(tree, fid[o.op[2]].path)
           /\ fid'[o.op[2]].path = RenameDest(fid[o.op[2]], o.op[3])
 FidFollowsCreateRename == [][FidFollowsA]_vars
